@@ -105,10 +105,29 @@ def start_replay(V, wd, tier, props):
     jobs = [rs.behaviour_to_job(f"b{i}", b) for i, b in enumerate(behs)]
     model = {f"b{i}": b for i, b in enumerate(behs)}
     results, traces = run_jobs(jobs, wd, timeout=1200)
+    # A lock-step gate that ran into its timeout (loaded machine) did not enforce the prescribed arrival order:
+    # those behaviours are run again, few at a time and with a longer gate timeout.
+    late = [j for j in jobs if results.get(j["id"], {}).get("gate_timeouts", 0) > 0]
+    V.coverage["start_gate_timeouts_first_pass"] = len(late)
+    if late:
+        wd2 = os.path.join(wd, "again")
+        os.makedirs(wd2, exist_ok=True)
+        again = [dict(j, gate_timeout_ms=8000) for j in late]
+        results2, traces2 = run_jobs(again, wd2, timeout=1200, nproc=3)
+        redone = set(results2)
+        hist = []
+        for tf in traces:
+            hist += [x for x in rs.real_histories(tf) if x[0] not in redone]
+        for tf in traces2:
+            hist += list(rs.real_histories(tf))
+        results = dict(results, **results2)
+    else:
+        hist = [x for tf in traces for x in rs.real_histories(tf)]
+    unenforced = 0
     recs = []
     drift = 0
-    for tf in traces:
-        for jid, h, ev in rs.real_histories(tf):
+    for _ in (0,):
+        for jid, h, ev in hist:
             res = results.get(jid, {})
             if ev == "hang" or res.get("hang"):
                 V.add_violation({"prop": V.prop, "kind": "job_hang", "job": jid}, replay=model[jid])
@@ -117,10 +136,13 @@ def start_replay(V, wd, tier, props):
                 V.add_violation({"prop": V.prop, "kind": "job_panic", "job": jid,
                                  "panics": res.get("panics", [])[:2]}, replay=model[jid])
                 continue
-            recs.append({"ev": "case", "id": jid, "n": model[jid]["n"], "h": h, "hm": model[jid]["h"]})
+            enf = res.get("gate_timeouts", 0) == 0
+            unenforced += 0 if enf else 1
+            recs.append({"ev": "case", "id": jid, "n": model[jid]["n"], "h": h, "hm": model[jid]["h"], "enf": enf})
             recs.append({"ev": "done", "id": jid})
-            if h != model[jid]["h"]:
+            if enf and h != model[jid]["h"]:
                 drift += 1
+    V.coverage["start_order_not_enforced"] = unenforced
     files = split_trace_files(recs, wd, "startcheck", max_events=600)
     viols, consumed, states, infos = validate_parallel("StartCheck", files, wd)
     V.coverage["states"] += states
@@ -1257,7 +1279,26 @@ def C18(V, tier):
 
 
 def replay(pid, path, V):
+    """./check <ID> --replay <file>: run the stored case again on the current tree and judge it the same way
+    (jobs: the full T/D pipeline on that one job, 3 runs; other replay kinds are printed)."""
     with open(path) as f:
         data = json.load(f)
-    print(json.dumps(data, indent=1)[:4000])
+    print(json.dumps(data.get("violation"), indent=1)[:3000])
+    rp = data.get("replay")
+    job = rp.get("job") if isinstance(rp, dict) and "job" in rp and isinstance(rp["job"], dict) else rp
+    if isinstance(job, dict) and "prog" in job and "cfg" in job:
+        sinks = {n["id"]: {"kind": n["kind"], "ordered": False} for n in job["prog"]["nodes"] if n["op"] == "sink"}
+        prog = {"name": "replayed", "prog": job["prog"], "sinks": sinks, "prop": pid}
+        for k in ("gate", "crash"):
+            if k in job:
+                prog[k] = job[k]
+        wd = workdir(pid + "_replay")
+        jobsuite.run_suite(V, wd, [prog], [(job["cfg"], job.get("batch", "default"))] * 3, pid,
+                           checks=("result", "link", "boundary") if not job.get("crash") else ("link",),
+                           perturb_us=job.get("perturb_us", 0), expect_panic=bool(job.get("crash")))
+        rc = V.finish(dry=True)
+        print(f"replayed 3 runs of {job.get('id')}: " + ("violation reproduced" if rc else
+              "no violation on this tree in these runs (schedule-dependent cases need the check's own perturbation)"))
+        return rc
+    print("(no re-runnable job in this replay file: component behaviours are replayed by the check itself)")
     return 0
